@@ -61,6 +61,17 @@ def run(ctx):
         else:
             ctx.violation(Finding('R-CONVCALL', 'core/_functions.py', 'convolve_dim', api.stmt_of(c), '%s is not a convolution with the given weights: np.correlate applies the kernel mirrored, so every '
                                   'non-palindromic kernel (0.75,0.25 / 1,-1) gives other values and a shifted coordinate' % nm_))
+    # the weights handed to the convolution are the numbers of the definition: parsed / converted, never rescaled on the way
+    for wname in set(n_.id for c in lanes for a in c.args for n_ in ast.walk(a) if isinstance(n_, ast.Name) and 'weight' in n_.id):
+        for st in iter_stmts(cf.body):
+            tg = st.targets if isinstance(st, ast.Assign) else ([st.target] if isinstance(st, ast.AugAssign) else [])
+            if any(isinstance(t, ast.Name) and t.id == wname for t in tg):
+                arith = isinstance(st, ast.AugAssign) or any(isinstance(x, ast.BinOp) and any(isinstance(y, ast.Name) and y.id == wname for y in ast.walk(x)) for x in ast.walk(st.value))
+                if arith:
+                    ctx.violation(Finding('R-CONVCALL', 'core/_functions.py', 'convolve_dim', st, 'the weights of the definition are rescaled before the convolution (%s): the result equals '
+                                          'numpy.convolve with the given weights only when they already had that scale (1,1 comes out halved, 1,-1 is divided by zero)' % norm(st)[:50]))
+                else:
+                    ctx.ok('R-CONVCALL', 'weights:%s' % norm(st)[:30], wcf, 'weights taken from the definition as they are')
     vloops = [st for st in fn.body if isinstance(st, ast.For) and 'self.variables.items()' in norm(st.iter)]
     if not vloops:
         raise AnalysisError('anchor vanished: per-variable loop of applyAlongDimensions')
@@ -301,6 +312,20 @@ def run(ctx):
                               'LAY/ROW/COL rewrites the time flags, a variable that lacks those dimensions (files with irregular time flags lose them)'), oid='wrapper:tflag')
     else:
         ctx.ok('R-UNTOUCHED', 'wrapper:tflag', 'src/PseudoNetCDF/cmaqfiles/_ioapi.py ioapi_base.applyAlongDimensions', 'no forced regeneration of TFLAG')
+    # ---- the string form: reduce_dim keeps the reduced axis in every branch (the result is stored with the source's dimension tuple)
+    rd = ctx.src.mod('core/_functions.py').func('reduce_dim')
+    wrd = 'src/PseudoNetCDF/core/_functions.py reduce_dim'
+    ngf = 0
+    for c in walk_expr(rd):
+        if isinstance(c, ast.Call) and isinstance(c.func, ast.Call) and (dotted(c.func.func) or '') == '_getfunc':
+            ngf += 1
+            kd = kw(c, 'keepdims')
+            if kd is not None and isinstance(kd, ast.Constant) and kd.value is True:
+                ctx.ok('R-KEEPDIMS', 'reduce_dim:%s' % norm(c)[:40], wrd, 'keepdims=True')
+            else:
+                ctx.violation(Finding('R-KEEPDIMS', 'core/_functions.py', 'reduce_dim', api.stmt_of(c), 'the reducer chosen by _getfunc is called without keepdims=True: for an array method the reduced axis '
+                                      'disappears, and the result is stored under the dimension names of the source (a `time` variable of shape () with dimensions (time,))'))
+    ctx.floor('reducer calls in reduce_dim', ngf, 3)
     # ---- the level edges the wrapper recomputes follow the new layers in their order (no sorting / de-duplication of the edge values)
     ctx.rule('R-EDGEORDER', 'IOAPI wrapper: the recomputed level edges keep the order and the number of the new layers (not sorted, reversed or made unique)')
     vst = [st for st in iter_stmts(wf.body) if isinstance(st, ast.Assign) and any(isinstance(t, ast.Attribute) and t.attr == 'VGLVLS' for t in st.targets)]
